@@ -47,6 +47,10 @@ type crashArm struct {
 	countdown int
 	all       bool   // take every other live node down at the same instant
 	lose      string // scripted: which unsynced sectors are lost
+	// grown: only a sync of a WAL segment that has grown past its durable length
+	// counts (the save that runs over the preallocated end of a segment, synced
+	// inside the segment cut): the crash that can leave a file shorter than its data
+	grown bool
 }
 
 // incarnation is one process lifetime of a node.
@@ -72,6 +76,7 @@ type incarnation struct {
 	arm              *crashArm
 	seams            [nSeams]int
 	syncs            int
+	syncGrown        bool // the sync in progress is of a WAL segment grown past its durable length
 	fromImage        bool // started from a crash image
 	imageHadSnap     bool
 }
@@ -508,7 +513,7 @@ func (s *Sim) seam(inc *incarnation, kind seamKind) bool {
 		return false
 	}
 	inc.seams[kind]++
-	if a := inc.arm; a != nil && a.kind == kind {
+	if a := inc.arm; a != nil && a.kind == kind && (!a.grown || inc.syncGrown) {
 		a.countdown--
 		if a.countdown <= 0 {
 			inc.arm = nil
@@ -590,6 +595,9 @@ func (s *Sim) crashLocked(inc *incarnation, kind string) {
 	}, func() bool { return s.tape.Draw(2) == 1 })
 	if err != nil {
 		s.res.Harness = "harness: cannot materialise crash image: " + err.Error()
+	}
+	if cs.grown > 0 {
+		s.res.Probes["crash-while-file-grown-past-durable-length"] += int64(cs.grown)
 	}
 	if cs.shortTail > 0 {
 		s.res.Faults["file-tail-missing"] += int64(cs.shortTail)
